@@ -361,7 +361,10 @@ func pipeDelivery(l *pipeLog, rng *rand.Rand, nkeys, nposters, nposts int, useCh
 		ids := []int{}
 		mouse := rng.Intn(5) == 0 // this chunk's events are hover-motion reports instead of characters
 		for i := 0; i < n && k < nkeys; i++ {
-			if mouse {
+			if mouse && k%3 == 1 {
+				// a release report with no press before it (the press went to another window): an event all the same
+				b = append(b, []byte(fmt.Sprintf("\x1b[<0;%d;%dm", 1+k%180, 1+k/180))...)
+			} else if mouse {
 				b = append(b, []byte(fmt.Sprintf("\x1b[<35;%d;%dM", 1+k%180, 1+k/180))...)
 			} else {
 				b = append(b, []byte(string(idRune(k)))...)
